@@ -271,6 +271,8 @@ pub struct History {
     pub ops_total: u64,
     /// constructed with an explicit trigger set (the seed's own draw is skipped)
     pub forced: bool,
+    /// enumerated symbol sequence this history executed (empty for random histories)
+    pub symbols: Vec<u8>,
 }
 
 fn qos_of(n: u8) -> QoS {
@@ -353,6 +355,7 @@ impl History {
             inject: None,
             ops_total: 0,
             forced,
+            symbols: vec![],
         }
     }
 
@@ -1599,6 +1602,145 @@ impl History {
         }
     }
 
+    pub fn set_persistent(&mut self, a: usize, persistent: bool) {
+        self.actors[a].persistent = persistent;
+    }
+
+    pub fn actor_count(&self) -> usize {
+        self.actors.len()
+    }
+
+    /// Fixed prologue of the enumerated short histories: two clients connected, overlapping plain and
+    /// shared subscriptions, one QoS 1 message forwarded and not yet acknowledged.
+    pub fn prologue(&mut self) {
+        self.set_persistent(0, true);
+        self.set_persistent(1, false);
+        self.actors[0].has_will = true;
+        self.connect(0, None);
+        self.connect(1, None);
+        self.step(Step::Turn);
+        self.subscribe(0, &[("a/#".to_owned(), 1)], true);
+        self.subscribe(1, &[("a/b".to_owned(), 2), ("$share/g/a/+".to_owned(), 0)], true);
+        self.step(Step::Turn);
+        self.publish(1, "a/b", 1, false, false, None, true);
+        self.step(Step::Turn);
+    }
+
+    pub const SYMBOLS: u8 = 38;
+
+    /// One symbol of the abstract event alphabet (C03 enumeration). Symbols 0..16 exist per client.
+    pub fn symbol(&mut self, sym: u8) {
+        if self.done() {
+            return;
+        }
+        let (a, k) = if sym < 32 { ((sym % 2) as usize, sym / 2) } else { (0, sym) };
+        self.shape.push(100 + sym);
+        match k {
+            0 => {
+                self.publish(a, "a/b", 0, false, false, None, true);
+            }
+            1 => {
+                self.publish(a, "a/b", 1, true, false, None, true);
+            }
+            2 => {
+                self.publish(a, "a/c", 2, false, false, None, true);
+            }
+            3 => {
+                self.subscribe(a, &[("a/+".to_owned(), 1)], true);
+            }
+            4 => {
+                let held: Vec<String> = self.actors[a].held.keys().take(1).cloned().collect();
+                if !held.is_empty() {
+                    self.unsubscribe(a, &held, true);
+                }
+            }
+            5 => {
+                self.disconnect_packet(a);
+            }
+            6 => {
+                self.link_drop(a);
+            }
+            7 => {
+                // reconnect or take over, session as configured
+                self.connect(a, None);
+            }
+            8 => {
+                self.connect(a, Some(true));
+            }
+            9 => {
+                self.drain(a);
+                self.flush_acks(a, usize::MAX);
+                self.send_ready(a);
+            }
+            10 => {
+                self.drain(a);
+                self.flush_acks(a, 1);
+            }
+            11 => {
+                // unsolicited / out-of-order acknowledgement
+                if let Some(link) = self.usable(a) {
+                    self.s4.push(link, Packet::PubAck(PubAck { pkid: 4242, reason: PubAckReason::Success }, None));
+                    self.push_trailing(link);
+                    self.s4.notify(link);
+                    self.actors[a].poisoned = true;
+                    self.op("bad-packet", 21);
+                }
+            }
+            12 => {
+                if let Some(link) = self.usable(a) {
+                    self.s4.push(link, Packet::PubComp(PubComp { pkid: 4243, reason: PubCompReason::Success }, None));
+                    self.s4.notify(link);
+                    self.actors[a].poisoned = true;
+                    self.op("bad-packet", 23);
+                }
+            }
+            13 => {
+                if let Some(link) = self.usable(a) {
+                    self.s4.push(link, Packet::Publish(mk_publish(false, 1, 77, false, &[0xff, b'/', b'x'], b"U:nonutf8"), None));
+                    self.push_trailing(link);
+                    self.s4.notify(link);
+                    self.actors[a].poisoned = true;
+                    self.op("bad-packet", 29);
+                }
+            }
+            14 => {
+                // stale events of this client's previous link
+                let old: Vec<usize> = self.actors[a].old_links.iter().copied().filter(|l| self.s4.links[*l].conn_id.is_some() && !self.model.is_live(*l)).collect();
+                if let Some(l) = old.last().copied() {
+                    self.s4.ready(l);
+                    self.s4.notify(l);
+                    self.op("stale-event", 50);
+                }
+            }
+            15 => {
+                let c = self.actors[a].name.clone();
+                self.s4.will_ev(&c);
+                self.op("will-event", 60);
+            }
+            32 => {
+                self.step(Step::Turn);
+            }
+            33 => {
+                self.step(Step::Event);
+            }
+            34 => {
+                self.step(Step::Consume);
+            }
+            35 => {
+                self.s4.raw(40, Event::Ready, "Ready");
+                self.op("raw-event", 40);
+            }
+            36 => {
+                self.s4.raw(41, Event::Shadow(ShadowRequest { filter: "a/b".into() }), "Shadow");
+                self.op("raw-event", 45);
+            }
+            _ => {
+                self.s4.raw(42, Event::DeviceData, "DeviceData");
+                self.op("raw-event", 41);
+            }
+        }
+    }
+
     pub fn shape_hash(&self) -> u64 {
         fnv(&self.shape)
     }
@@ -1609,6 +1751,7 @@ impl History {
             "profile": self.profile.name,
             "case_seed": self.seed,
             "forced_trigger_free": self.forced,
+            "symbols": self.symbols,
             "inject": self.inject.map(|(a, f)| vec![a, f as u64]),
             "config": self.config,
             "triggered": self.triggered,
